@@ -285,7 +285,7 @@ impl Subscription {
                                         .resolve(ri, &mut resolve_fut)
                                         .await;
 
-                                    match value {
+                                    let mut resp = match value {
                                         Ok(value) => {
                                             let mut map = IndexMap::new();
                                             map.insert(
@@ -295,7 +295,12 @@ impl Subscription {
                                             Response::new(Value::Object(map))
                                         }
                                         Err(err) => Response::from_errors(vec![err]),
-                                    }
+                                    };
+                                    // field errors captured at nullable positions of this event
+                                    resp.errors.extend(std::mem::take(
+                                        &mut *ctx_field.query_env.errors.lock().unwrap(),
+                                    ));
+                                    resp
                                 }
                             };
                             let resp = ctx_field
@@ -303,7 +308,8 @@ impl Subscription {
                                 .extensions
                                 .execute(ctx_field.query_env.operation_name.as_deref(), f)
                                 .await;
-                            let is_err = !resp.errors.is_empty();
+                            // only an event that failed as a whole ends the stream
+                            let is_err = !resp.errors.is_empty() && resp.data == Value::Null;
                             yielder.yield_ok(resp).await;
                             if is_err {
                                 break;
